@@ -266,6 +266,12 @@ def make_machine(ctx, refs, workdir, quick):
     class Histories(RuleBasedStateMachine):
         def __init__(self):
             super().__init__()
+            # a parameter file with other settings lies in one of the working directories under the default name
+            trap = os.path.join(workdir, "b", "c")
+            os.makedirs(trap, exist_ok=True)
+            if not os.path.exists(os.path.join(trap, "propka.cfg")):
+                import shutil
+                shutil.copy(cat[0]["optsets"]["-p"][1], os.path.join(trap, "propka.cfg"))
             self.steps = []
             self.keep = []
             self.gc_was = gc.isenabled()
@@ -305,10 +311,16 @@ def make_machine(ctx, refs, workdir, quick):
                                         "detail": "step %d (%s, input %d [%s], options %s): %s" % (
                                             len(self.steps), how, i, kind, oname, first_diff(got, want))}])
 
-        @rule(k=st.integers(0, len(pairs) - 1))
-        def run_stream(self, k):
+        @rule(k=st.integers(0, len(pairs) - 1), sub=st.sampled_from([".", ".", "b/c"]))
+        def run_stream(self, k, sub):
             i, oname = pairs[k]
-            got = run_record(cat[i]["text"], cat[i]["optsets"][oname], "stream", workdir)
+            d = os.path.join(workdir, sub)
+            os.makedirs(d, exist_ok=True)
+            os.chdir(d)
+            try:
+                got = run_record(cat[i]["text"], cat[i]["optsets"][oname], "stream", workdir)
+            finally:
+                os.chdir(workdir)
             self._judge(i, oname, got, "stream")
 
         @rule(k=st.integers(0, len(pairs) - 1), sub=st.sampled_from(["a", "b/c", "."]))
